@@ -53,6 +53,18 @@ def run(facts, rep, ctx):
         rep.ok(R5, {"archive": "constructed with the caller's endianness"})
     else:
         rep.violation(R5, rd.name, "archive-endian", "from_bytes does not construct the archive with the caller's endianness", "%s:%s" % (rd.file, rd.line))
+    # offsets are section-relative: the interning map of one section is never used for another (shared with C02-R02.4)
+    try:
+        import c02 as _c02
+        helpers_ = set()
+        for bb_, t_ in ser.calls():
+            cb_ = facts.body(callee_names(t_)[1] or callee_names(t_)[0] or "")
+            if cb_ is not None and cb_.argc == 3 and cb_.local_ty(1) == "&mut std::vec::Vec<u8>" and cb_.local_ty(2).startswith("&mut std::collections::HashMap<std::string::String, usize"):
+                helpers_.add(cb_.name)
+        if len(helpers_) == 1:
+            _c02.pairing_rule(facts, rep, R1, ser, facts.body(list(helpers_)[0]))
+    except Exception:
+        pass
     w = writer_model(facts, rep, R1, ser)
     r = reader_model(facts, rep, R2, rd)
     if w is None or r is None:
@@ -201,6 +213,8 @@ def run(facts, rep, ctx):
         first = sc["spec"][0]
         if first["path"][:1] == [single[0]]:
             rep.violation(R4, ser.name, "label-sort-per-label", "serialize sorts single (address, label) entries by the label text: labels attached to one address are written in alphabetical instead of insertion order, so the per-address label order does not survive a round trip", "%s:%s" % (ser.file, sc["line"]))
+    if r.get("pointer_entry_dropped"):
+        rep.violation(R4, rd.name, "pointer-entry-dropped", "a pointer-table entry can be skipped without being stored as a string or a pointer (under [%s]): the annotation is missing after a round trip" % r["pointer_entry_dropped"], "%s:%s" % (rd.file, rd.line))
     for acc, mode in sorted(set(r.get("label_store", []))):
         if mode == "replace":
             rep.violation(R4, rd.name, "label-replace:" + acc, "the label loop stores a label with BinArchive::%s, which replaces the labels already collected for that address: a table that lists one address's labels non-adjacently loses all but the last run" % acc, "%s:%s" % (rd.file, rd.line))
@@ -589,6 +603,8 @@ def reader_model(facts, rep, R2, rd):
                             return ("const", v_, "u32")        # `archive.read_u32(..)?`
                         if t_ == D:
                             return ("const", d_, "u32")
+                        if t_[0] == "call" and (t_[1].endswith("BinArchive::size") or (t_[1].endswith("::len") and any(y[0] == "field" and y[2] == "data" for y in walk(t_)))):
+                            return ("const", d_, "usize")      # the archive being filled holds exactly the data region
                         if t_[0] == "local" and len(nv.defs().get(t_[1], [])) == 1:
                             return subst(nv.definition(t_[1]), v_, d_)
                         return tuple(subst(x, v_, d_) if isinstance(x, tuple) else x for x in t_)
@@ -626,6 +642,25 @@ def reader_model(facts, rep, R2, rd):
                 m["classify"] = None
             else:
                 m["classify"] = "string when %s, pointer when %s (v = cell value, d = data size)" % (rel_s, rel_p)
+        if which == 1:
+            # every pointer-table entry ends up as a string or as a pointer: a trip round the loop that stores neither
+            # drops the entry (the writer would not emit it again)
+            try:
+                from flow import enum_paths, PathLimit
+                head_ = lp["head"]
+                dropped = None
+                for p_ in enum_paths(rd, max_paths=4000, start=head_):
+                    if p_.end != "loop" or getattr(p_, "loop_to", None) != head_:
+                        continue
+                    if not all(x in lp["blocks"] for x in p_.blocks):
+                        continue
+                    stores = [e for e in p_.events if e["k"] == "call" and e["callee"] and e["callee"].rsplit("::", 1)[-1] in ("write_string", "write_pointer", "write_c_string")]
+                    if not stores:
+                        conds_ = [c_ for c_ in p_.conds if c_[4] == "bool"]
+                        dropped = "; ".join(fmt(c_[1])[:50] for c_ in conds_[-2:]) or "unconditionally"
+                m["pointer_entry_dropped"] = dropped
+            except Exception:
+                m["pointer_entry_dropped"] = None
         if which == 2:
             # how each label found in the table is stored: appended to the labels already collected for its address,
             # or put in place of them
